@@ -1,0 +1,39 @@
+//go:build verif
+
+package x509
+
+// Verification hook for C33 (JSON encodings round-trip): exposes, read-only,
+// the tables that SignatureAlgorithm.MarshalJSON/UnmarshalJSON and
+// PublicKeyAlgorithm.UnmarshalJSON walk, in their declaration order.
+
+// VerifC33SigAlgDetail is one row of signatureAlgorithmDetails.
+type VerifC33SigAlgDetail struct {
+	Algo int
+	OID  []int
+}
+
+// VerifC33SignatureAlgorithmDetails returns (algo, oid) of every row of
+// signatureAlgorithmDetails in table order, and the OID that selects the
+// RSA-PSS branch of SignatureAlgorithm.UnmarshalJSON.
+func VerifC33SignatureAlgorithmDetails() (rows []VerifC33SigAlgDetail, pssOID []int) {
+	for _, d := range signatureAlgorithmDetails {
+		rows = append(rows, VerifC33SigAlgDetail{Algo: int(d.algo), OID: append([]int{}, d.oid...)})
+	}
+	return rows, append([]int{}, oidSignatureRSAPSS...)
+}
+
+// VerifC33PublicKeyNameToAlgorithm returns a copy of publicKeyNameToAlgorithm.
+func VerifC33PublicKeyNameToAlgorithm() map[string]int {
+	out := map[string]int{}
+	for k, v := range publicKeyNameToAlgorithm {
+		out[k] = int(v)
+	}
+	return out
+}
+
+// VerifC33NumKeyAlgorithms is total_key_algorithms.
+func VerifC33NumKeyAlgorithms() int { return int(total_key_algorithms) }
+
+// VerifC33NumSignatureAlgorithms is the number of entries of algoName
+// (declared SignatureAlgorithm values are 0 .. n-1).
+func VerifC33NumSignatureAlgorithms() int { return len(algoName) }
